@@ -139,4 +139,9 @@ def spec (cfg : Cfg) (s : St) (c : Call) : St × Except Exc Res :=
   | .version => ((AbsMap.apply s .version).1, .ok (.bytes (Server.versionLine.drop 8)))
   | .quit => ((AbsMap.apply s .quit).1, .ok .none)
   | .raw _ _ => (s, .error .unknownCommand)      -- not part of the map contract
+  -- the administrative operations are not part of the map contract either (`WF` is `False` for them); the
+  -- value given here is a placeholder no theorem relies on
+  | .stats _ => (s, .error .unknownCommand)
+  | .cacheMemlimit _ => (s, .error .unknownCommand)
+  | .shutdown _ => (s, .error .unknownCommand)
 end ApiSpec
